@@ -168,6 +168,11 @@ impl Deserializable for Context {
             ));
         }
         let field_modulus_bytes = source.read_vec(num_modulus_bytes)?;
+        if field_modulus_bytes.iter().all(|&byte| byte == 0) {
+            return Err(DeserializationError::InvalidValue(
+                "field modulus cannot be zero".to_string(),
+            ));
+        }
 
         // read options
         let options = ProofOptions::read_from(source)?;
